@@ -17,7 +17,9 @@ EXPLANATION = (
     "that table; get_named_length reads the zero-extended constant registered by declare; R4 |x|: the typer's "
     "LengthOfArray arm distinguishes Array (length step), ArrayWithNamedLength (the constant), Slice/SlicePointer "
     "(slice header length) and rejects everything else with NotAnArrayWithLength; R5 word size check: "
-    "aligned_size_in_bytes <= declared size else WordSizeMismatch (E380).")
+    "aligned_size_in_bytes <= declared size else WordSizeMismatch (E380); R6 |:T|: the generator's SizeOf arm computes "
+    "the constant from Generator::size_in_bits (LLVMSizeOfTypeInBits on the module's own data layout) of the lowered "
+    "type, divided by 8, consults no other size table, and |:bool| = 1 is the only special case.")
 
 VT = "alpha::value_type::ValueType::"
 
@@ -194,6 +196,60 @@ def r5_word_size(run, F):
         run.info("align(): %s" % hirq.summarize_bool(a["hir"].get("e", {})))
 
 
+def r6_sizeof(run, F):
+    """|:T| is the size LLVM's data layout gives the type T is lowered to: the generator's SizeOf arms may consult nothing else."""
+    cands = [p for p in F.lib.bodies if p.endswith("as alpha::generator::Generatable>::generate") and "resolved::Expression" in p]
+    run.require(len(cands) == 1, "Expression::generate not found: %s" % cands)
+    g = F.lib.bodies[cands[0]]
+    m = hirq.find_match(g, min_arms=10)
+    arms = [a for a in m["arms"] if any(hirq.pat_key(alt).endswith("Expression::SizeOf") for alt in hirq.pat_alts(a["pat"]))]
+    run.require(len(arms) >= 1, "no SizeOf arm in Expression::generate")
+    GEN = "alpha::generator::Generator::"
+    general = 0
+    for a in arms:
+        fp, rest = hirq.field_pats(a["pat"])
+        qp = (fp or {}).get("queried_type")
+        cs = [hirq.callee(c) or "" for c in hirq.calls(a["body"])]
+        local = sorted(set(c for c in cs if c.startswith(("alpha::", "<alpha::"))))
+        if qp is not None and qp.get("k") == "Path" and str(qp.get("res", "")).startswith(VT):
+            v = qp["res"].split("::")[-1]
+            lit = [hirq.unwrap_trivial(c["a"][0]).get("v") for c in hirq.calls(a["body"]) if hirq.callee(c) == GEN + "const_usize" and c.get("a")]
+            run.ob("R6-SIZEOF-FROM-LAYOUT", "special case %s" % v, v == "Bool" and lit == [1] and local == [GEN + "const_usize"], F.where(g, a),
+                   "the only reviewed special case is |:bool| = 1 (an i1 value stored in one byte); found %s -> %s" % (v, lit))
+            continue
+        general += 1
+        allowed = {GEN + "const_usize", GEN + "size_in_bits",
+                   "<alpha::value_type::ValueType<alpha::resolved::Identifier> as alpha::generator::Generatable>::generate"}
+        extra = [c for c in local if c not in allowed]
+        run.ob("R6-SIZEOF-FROM-LAYOUT", "sources", not extra and (GEN + "size_in_bits") in local, F.where(g, a),
+               "|:T| must be computed from the data layout of the lowered type only (Generator::size_in_bits of T.generate()); "
+               "other size sources consulted: %s" % extra, sample={"callees": local})
+        # def-use: generate(T) -> size_in_bits -> / 8 -> const_usize
+        from rules import visit
+        binds = [l for _, l, _ in hirq.pat_bindings(a["pat"])]
+        der_t = visit.derived_lids(a["body"], set(binds))
+        sib = [c for c in hirq.calls(a["body"]) if hirq.callee(c) == GEN + "size_in_bits"]
+        ok1 = bool(sib) and all(any(hirq.uses_local(x, l) for l in der_t for x in c.get("a", [])) for c in sib)
+        der_s = visit.derived_lids(a["body"], set(), seed_nodes=sib)
+
+        def from_size(x):
+            return any(hirq.uses_local(x, l) for l in der_s) or any(y is c for y in walk(x) for c in sib)
+        divs = [n for n in walk(a["body"]) if n.get("k") == "Binary" and n.get("op") == "Div"
+                and hirq.unwrap_trivial(n["rhs"]).get("v") == 8 and from_size(n["lhs"])]
+        der_d = visit.derived_lids(a["body"], set(), seed_nodes=divs)
+        cu = [c for c in hirq.calls(a["body"]) if hirq.callee(c) == GEN + "const_usize"]
+        ok2 = len(cu) == 1 and len(divs) == 1 and any(
+            any(hirq.uses_local(x, l) for l in der_d) or any(y is divs[0] for y in walk(x)) for x in cu[0].get("a", []))
+        run.ob("R6-SIZEOF-FROM-LAYOUT", "dataflow", ok1 and ok2, F.where(g, a),
+               "the queried type flows into size_in_bits, and its result / 8 into the usize constant "
+               "(type->size_in_bits %s, size_in_bits/8->constant %s)" % (ok1, ok2))
+    run.ob("R6-SIZEOF-FROM-LAYOUT", "general arm", general == 1, F.where(g), "exactly one general SizeOf arm (found %d)" % general)
+    sb = F.body(GEN + "size_in_bits")
+    cs = [hirq.callee(c) for c in hirq.calls(sb["hir"])]
+    run.ob("R6-SIZEOF-FROM-LAYOUT", "size_in_bits", cs == ["llvm_sys::target::LLVMSizeOfTypeInBits", "llvm_sys::target::LLVMGetModuleDataLayout"], F.where(sb),
+           "size_in_bits asks the module's own data layout (the one the emitted IR carries): %s" % cs)
+
+
 def check(run):
     F = run.facts("B")
     r1_sizes(run, F)
@@ -201,3 +257,4 @@ def check(run):
     r3_named_lengths(run, F)
     r4_length_of(run, F)
     r5_word_size(run, F)
+    r6_sizeof(run, F)
